@@ -29,7 +29,12 @@ Record dcase := DC {
   dc_alt : option (obs domainv * obs domainv);
                                      (* locate_domains with the OTHER setting of add_dummy_actions, and that
                                         combination exported and parsed again (None: not run for this job) *)
-  dc_expect : option domainv         (* the unsplit domain the generator started from *)
+  dc_expect : option domainv;        (* the unsplit domain the generator started from *)
+  dc_subs : list (N * alist * alist) (* every Domain object looked at after the call (0 the combination, 1 its re-parsed
+                                        export, 2 / 3 the same with the other dummy setting): its type dump
+                                        (type -> ancestor chain, read off the parent pointers) and the subtype relation
+                                        as PDDLType.is_sub_type answers it on every ordered pair of its types
+                                        (type -> the types it is a subtype of) *)
 }.
 
 Record pcase := PC {
@@ -94,6 +99,49 @@ Definition problem_eqb (a b : problemv) : bool :=
   nodup_b (keys (p_facts a)) && nodup_b (keys (p_facts b)) &&
   set_equiv_b (p_goals a) (p_goals b) && set_equiv_b (p_ngoals a) (p_ngoals b).
 
+(* ---------------------------------------------------------------- the subtype relation of a type dump.
+   A type entry is the chain of the type's ancestors (nearest first, blank-separated).  The relation the library
+   answers on the types of one Domain object must be the reflexive closure of these chains: t <= u iff u = t or u is
+   in t's chain. *)
+Fixpoint words_aux (s cur : string) : list string :=
+  match s with
+  | EmptyString => match cur with EmptyString => [] | _ => [cur] end
+  | String c r =>
+      if Ascii.eqb c " "
+      then match cur with EmptyString => words_aux r "" | _ => cur :: words_aux r "" end
+      else words_aux r (cur ++ String c "")
+  end.
+Definition words (s : string) : list string := words_aux s "".
+
+Definition supers_of (types : alist) (k chain : string) : list string :=
+  filter (fun b => String.eqb b k || str_in b (words chain)) (keys types).
+
+Definition sub_table_ok (types sub : alist) : bool :=
+  set_equiv_b (keys types) (keys sub) &&
+  forallb (fun kv => match lookup (fst kv) sub with
+                     | Some s_ => set_equiv_b (words s_) (supers_of types (fst kv) (snd kv))
+                     | None => false
+                     end) types.
+
+Definition sub_tag (n : N) : string :=
+  match n with
+  | 0%N => "the combination" | 1%N => "the re-parsed export"
+  | 2%N => "the combination, other dummy setting" | _ => "the re-parsed export, other dummy setting"
+  end.
+
+(* the table of an object must be the table of the dump that crossed for that object *)
+Definition sub_checks (dumps : list (N * obs domainv)) (subs : list (N * alist * alist)) : list (string * bool) :=
+  map (fun x => let '(n, types, sub) := x in
+         (("is_sub_type on every pair of types = closure of the parent chains: " ++ sub_tag n)%string,
+          sub_table_ok types sub &&
+          existsb (fun d => N.eqb (fst d) n &&
+                            match snd d with Returned r => map_equiv_b (d_types r) types | Raised => false end) dumps))
+      subs ++
+  (* and no returned object goes without its table *)
+  map (fun d => (("is_sub_type table present: " ++ sub_tag (fst d))%string,
+                 match snd d with Returned _ => existsb (fun x => N.eqb (fst (fst x)) (fst d)) subs | Raised => true end))
+      dumps.
+
 (* ---------------------------------------------------------------- model *)
 Definition d_model (c : dcase) : obs domainv :=
   obs_of_result (locate_domains_r (dc_defaults c) (dc_dummy c) (map result_of_obs (dc_files c))).
@@ -107,6 +155,14 @@ Definition d_model_fresh (c : dcase) : list string :=
   match returned_all (dc_files c) with
   | Some fs => keys (fresh_domain_types code_init (fst (locate_types_store code_init fs [dc_defaults c])))
   | None => keys (dc_defaults c)
+  end.
+
+(* the subtype relation is_sub_type answers on the combination is the closure of the chains the model computes *)
+Definition d_model_sub (c : dcase) : bool :=
+  match d_model c with
+  | Returned m =>
+      forallb (fun x => let '(n, _, sub) := x in negb (N.eqb n 0) || sub_table_ok (d_types m) sub) (dc_subs c)
+  | Raised => true
   end.
 
 Definition p_model (c : pcase) : obs problemv :=
@@ -173,6 +229,8 @@ Definition d_checks (c : dcase) : list (string * bool) :=
                                    set_equiv_b (dc_default_after c) ["object"]);
        ("other domains untouched, parsed again the same", others_same_b (dc_others c))] ++
       rt_checks "export/re-parse: " lenient r (dc_rt c) ++
+      sub_checks ([(0%N, dc_obs c); (1%N, dc_rt c)] ++
+                  match dc_alt c with Some (o, rt2) => [(2%N, o); (3%N, rt2)] | None => [] end) (dc_subs c) ++
       [("equals the unsplit domain",
         match dc_expect c with
         | None => true
@@ -220,7 +278,8 @@ Definition judge (c : case) : verdict :=
   | CD c =>
       {| v_agree := obs_eqb domain_eqb (d_model c) (dc_obs c) &&
                     obs_eqb domain_eqb (d_model2 c) (dc_obs2 c) &&
-                    set_equiv_b (d_model_fresh c) (dc_fresh_after c);
+                    set_equiv_b (d_model_fresh c) (dc_fresh_after c) &&
+                    d_model_sub c;
          v_ok := all_ok (d_checks c);
          v_known := false |}
   | CP c =>
@@ -237,7 +296,7 @@ Definition run (cases : list case) : string := summary judge cases.
 Record drun := DR {
   dr_order : list N; dr_dummy : bool; dr_obs : obs domainv; dr_fresh_after : list string;
   dr_default_after : list string; dr_others : list alist; dr_rt : obs domainv;
-  dr_alt : option (obs domainv * obs domainv)
+  dr_alt : option (obs domainv * obs domainv); dr_subs : list (N * alist * alist)
 }.
 
 Record prun := PR {
@@ -257,7 +316,7 @@ Definition expand (g : group) : list case :=
   match g with
   | GD defaults files expect runs =>
       map (fun r => CD (DC defaults (dr_dummy r) (pick files (dr_order r)) (dr_obs r) (dr_fresh_after r)
-                           (dr_default_after r) (dr_others r) (dr_rt r) (dr_alt r) expect)) runs
+                           (dr_default_after r) (dr_others r) (dr_rt r) (dr_alt r) expect (dr_subs r))) runs
   | GP files expect runs =>
       map (fun r => CP (PC (pick files (pr_order r)) (pr_obs r) (pr_rt r) (pr_fresh_after r) (pr_others r) expect)) runs
   end.
